@@ -706,7 +706,13 @@ func FirstDiff(a, b Trace) int {
 
 // GovTemplates: multi-block governance flows (submit with full deposit + a yes vote by the
 // majority delegator; the proposal passes and executes in the EndBlock after the 10 s voting period).
-func GovTemplates() []Template {
+func GovTemplates() []Template { return govTemplates(false) }
+
+// ExtraGovTemplates: further governance flows, used where the resulting state itself is the subject
+// (export / import, restart): all EVM extensions switched off (an empty list is valid state).
+func ExtraGovTemplates() []Template { return govTemplates(true) }
+
+func govTemplates(extra bool) []Template {
 	gov := func(name string, mk func(w *world.World) sdk.Msg) Template {
 		return Template{Name: name, Steps: []func(w *world.World, _ precomp.ABIs) []byte{
 			func(w *world.World, _ precomp.ABIs) []byte {
@@ -726,6 +732,15 @@ func GovTemplates() []Template {
 		}}
 	}
 	authority := func(w *world.World) string { return w.App.AccountKeeper.GetModuleAddress("gov").String() }
+	if extra {
+		return []Template{
+			gov("govEvmNoPrecompiles", func(w *world.World) sdk.Msg {
+				p := w.App.EvmKeeper.GetParams(w.Ctx())
+				p.ActivePrecompiles = []string{}
+				return &evmtypes.MsgUpdateParams{Authority: authority(w), Params: p}
+			}),
+		}
+	}
 	return []Template{
 		gov("govEvmParams", func(w *world.World) sdk.Msg {
 			p := w.App.EvmKeeper.GetParams(w.Ctx())
@@ -788,6 +803,10 @@ func LifecycleChains(tmpl []Template, nBase int) []Plan {
 	if i, ok := ix["evmBlockHash"]; ok {
 		out = append(out, Plan{Name: "chain:evmBlockHash>5 blocks>evmBlockHash", Blocks: [][]int{{i}, {}, {}, {}, {}, {}, {i}}, Tail: 2})
 	}
+	// block gaps of several epoch lengths: the day epoch, ticking once per block, lags behind the clock
+	// (one tick per block: after the 200 h gap it stays behind for half a dozen blocks)
+	out = append(out, Plan{Name: "chain:epochs(behind the clock after 30 h and 200 h gaps)", Blocks: [][]int{{ix["bankSend"]}, {}, {}, {}},
+		Dts: []time.Duration{5 * time.Second, 30 * time.Hour, 200 * time.Hour, 6 * time.Second}, Tail: 1})
 	// two day-epoch boundaries, the second one hit by a block only a few seconds past the exact end
 	// (time-driven BeginBlock logic that a node may have cached differently)
 	day := 24 * time.Hour
